@@ -11,6 +11,7 @@ fn main() {
         let code = match std::env::var("NQV_CHILD").as_deref() {
             Ok("loader-text") => nqverif::c08::child_loader_text(),
             Ok("c19") => nqverif::c19::child(),
+            Ok("c03-generate") => nqverif::c03::child_generate(),
             other => {
                 eprintln!("MACHINERY unknown child mode {other:?}");
                 2
@@ -57,6 +58,7 @@ fn main() {
         let case = &v["case"];
         let code = match prop.as_str() {
             "C20" => nqverif::c20::replay(case),
+            "C03" | "C04" => nqverif::c03::replay(case),
             "C05" => nqverif::c05::replay(case),
             "C06" => nqverif::c06::replay(case),
             "C07" => nqverif::c07::replay(case),
@@ -73,6 +75,8 @@ fn main() {
     }
     let code = match prop.as_str() {
         "C20" => nqverif::c20::run(&args),
+        "C03" => nqverif::c03::run03(&args),
+        "C04" => nqverif::c03::run04(&args),
         "C05" => nqverif::c05::run(&args),
         "C06" => nqverif::c06::run(&args),
         "C07" => nqverif::c07::run(&args),
